@@ -596,6 +596,119 @@ package getoptions
 //@   props C06 C19
 //@   requires gopt != nil && gopt.programTree != nil && NodeOK(gopt.programTree)
 
+// ---- construction of the command tree (C10, C11, C17: a command sees its own and the inherited options) ----------------
+//
+// Shape of the tree that the construction functions need and keep (TreeOK() implies it): tables exist, entries are
+// well-formed records / nodes. A child is one level below its parent and every node has its own option table.
+//@ spec func TablesExist() bool = forall n *programTree :: n != nil ==> n.ChildOptions != nil && n.ChildCommands != nil
+//@ spec func OptionsOK() bool = forall n *programTree, k string :: n != nil && (k in n.ChildOptions) ==> OptOK(n.ChildOptions[k])
+//@ spec func CommandsOK() bool = forall n *programTree, k string :: n != nil && (k in n.ChildCommands) ==> n.ChildCommands[k] != nil
+//@ spec func TreeShape() bool = TablesExist() && OptionsOK() && CommandsOK()
+//@ spec func ChildLevelsOK() bool = forall n *programTree, k string :: n != nil && (k in n.ChildCommands) ==> n.ChildCommands[k].Level == n.Level + 1
+//@ spec func TablesDistinct() bool = forall a *programTree, b *programTree :: a != nil && b != nil && a != b ==> a.ChildOptions != b.ChildOptions && a.ChildCommands != b.ChildCommands
+//@ spec func SameTable(n *programTree) bool = forall k string :: (k in n.ChildOptions) == old(k in n.ChildOptions) && n.ChildOptions[k] == old(n.ChildOptions[k])
+// A child inherits unless it is the help command or a wrapper (UnsetOptions).
+//@ spec func Inherits(p *programTree, c *programTree) bool = c.Name != p.HelpCommandName && !c.skipOptionsCopy
+//@ spec func HasAll(c *programTree, p *programTree) bool = forall k string :: (k in p.ChildOptions) ==> (k in c.ChildOptions) && c.ChildOptions[k] == p.ChildOptions[k]
+
+//@ func New
+//@   props C10 C19
+//@   requires new.args: len(os.Args) >= 1      //# environment: the process was started with a program name
+//@   allocates GetOpt, programTree, map[string]*programTree, map[string]*option.Option
+//@   modifies
+//@   ensures new.root {C10}: result != nil && fresh(result) && result.programTree != nil && fresh(result.programTree) && result.finalNode == nil
+//@     && result.programTree.Parent == nil && result.programTree.Level == 0 && result.programTree.HelpCommandName == ""
+//@   ensures new.tables {C10}: NodeOK(result.programTree) && len(result.programTree.ChildOptions) == 0 && len(result.programTree.ChildCommands) == 0
+//@     && fresh(result.programTree.ChildOptions) && fresh(result.programTree.ChildCommands)
+//@   ensures new.defaults {C07,C08,C09}: result.programTree.mode == Normal && result.programTree.unknownMode == Fail && !result.programTree.requireOrder
+
+//@ func copyOptionsFromParent
+//@   props C10 C19
+//@   requires copy.pre: parent != nil && TreeShape() && ChildLevelsOK() && TablesDistinct()
+//@   modifies allmaps(map[string]*option.Option)
+//@   ensures copy.shape: TreeShape()
+//@   ensures copy.upper {C10,C06}: forall n *programTree :: n != nil && n.Level <= parent.Level ==> SameTable(n)
+//@   ensures copy.children {C10,C11,C17}: forall kc string :: (kc in parent.ChildCommands) && Inherits(parent, parent.ChildCommands[kc]) ==> HasAll(parent.ChildCommands[kc], parent)
+//@   ensures copy.grow {C10}: forall n *programTree, k string :: n != nil && old(k in n.ChildOptions) ==> (k in n.ChildOptions)
+//@   loop "for k, v := range parent.ChildOptions"
+//@     modifies allmaps(map[string]*option.Option)
+//@     invariant copy1.shape: TreeShape()
+//@     invariant copy1.upper: forall n *programTree :: n != nil && n.Level <= parent.Level ==> SameTable(n)
+//@     invariant copy1.done: forall kc string, q string :: (kc in parent.ChildCommands) && Inherits(parent, parent.ChildCommands[kc]) && (q in $seen)
+//@       ==> (q in parent.ChildCommands[kc].ChildOptions) && parent.ChildCommands[kc].ChildOptions[q] == parent.ChildOptions[q]
+//@     invariant copy1.grow: forall n *programTree, q string :: n != nil && old(q in n.ChildOptions) ==> (q in n.ChildOptions)
+//@   loop "for _, command := range parent.ChildCommands"@1
+//@     modifies allmaps(map[string]*option.Option)
+//@     invariant copy2.shape: TreeShape()
+//@     invariant copy2.upper: forall n *programTree :: n != nil && n.Level <= parent.Level ==> SameTable(n)
+//@     invariant copy2.prev: forall kc string, q string :: (kc in parent.ChildCommands)
+//@       && old_loop((q in parent.ChildCommands[kc].ChildOptions) && parent.ChildCommands[kc].ChildOptions[q] == parent.ChildOptions[q])
+//@       ==> (q in parent.ChildCommands[kc].ChildOptions) && parent.ChildCommands[kc].ChildOptions[q] == parent.ChildOptions[q]
+//@     invariant copy2.this: forall kc string :: (kc in $seen) && Inherits(parent, parent.ChildCommands[kc])
+//@       ==> (k in parent.ChildCommands[kc].ChildOptions) && parent.ChildCommands[kc].ChildOptions[k] == v
+//@     invariant copy2.grow: forall n *programTree, q string :: n != nil && old(q in n.ChildOptions) ==> (q in n.ChildOptions)
+//@   loop "for _, command := range parent.ChildCommands"@2
+//@     modifies allmaps(map[string]*option.Option)
+//@     invariant copy3.shape: TreeShape()
+//@     invariant copy3.upper: forall n *programTree :: n != nil && n.Level <= parent.Level + 1 ==> (forall k string :: (k in n.ChildOptions) == old_loop(k in n.ChildOptions) && n.ChildOptions[k] == old_loop(n.ChildOptions[k]))
+//@     invariant copy3.grow: forall n *programTree, q string :: n != nil && old(q in n.ChildOptions) ==> (q in n.ChildOptions)
+
+//@ func (*GetOpt).NewCommand
+//@   props C10 C19
+//@   requires newcmd.pre: gopt != nil && gopt.programTree != nil && TreeShape() && ChildLevelsOK() && TablesDistinct() && gopt.programTree.Level < 1000000
+//@   maypanic newcmd.invalid: name == "" || (name in gopt.programTree.ChildCommands)
+//@   allocates GetOpt, programTree, map[string]*programTree, map[string]*option.Option
+//@   modifies mapof(gopt.programTree.ChildCommands), allmaps(map[string]*option.Option)
+//@   ensures newcmd.node {C10}: result != nil && fresh(result) && result.programTree != nil && fresh(result.programTree)
+//@     && (name in gopt.programTree.ChildCommands) && gopt.programTree.ChildCommands[name] == result.programTree
+//@   ensures newcmd.others {C10}: forall k string :: (k in gopt.programTree.ChildCommands) == (old(k in gopt.programTree.ChildCommands) || k == name)
+//@     && (k != name ==> gopt.programTree.ChildCommands[k] == old(gopt.programTree.ChildCommands[k]))
+//@   ensures newcmd.settings {C08,C09,C10,C11}: result.programTree.Name == name && result.programTree.Parent == gopt.programTree && result.programTree.Level == gopt.programTree.Level + 1
+//@     && result.programTree.unknownMode == gopt.programTree.unknownMode && result.programTree.requireOrder == gopt.programTree.requireOrder
+//@     && result.programTree.mapKeysToLower == gopt.programTree.mapKeysToLower && result.programTree.HelpCommandName == gopt.programTree.HelpCommandName
+//@     && result.programTree.CommandFn == nil && len(result.programTree.ChildCommands) == 0
+//@   ensures newcmd.inherit {C10,C11,C17,C06}: name != gopt.programTree.HelpCommandName ==> HasAll(result.programTree, gopt.programTree)
+//@   ensures newcmd.own {C10,C06}: SameTable(gopt.programTree)
+//@   ensures newcmd.shape: TreeShape() && ChildLevelsOK() && TablesDistinct()
+
+// Wrapper commands drop what they inherited and are skipped by later copies.
+//@ func (*GetOpt).UnsetOptions
+//@   props C10 C19
+//@   requires gopt != nil && gopt.programTree != nil
+//@   allocates map[string]*option.Option
+//@   modifies gopt.programTree.ChildOptions, gopt.programTree.skipOptionsCopy
+//@   ensures unset {C10}: result == gopt && gopt.programTree.skipOptionsCopy && gopt.programTree.ChildOptions != nil && fresh(gopt.programTree.ChildOptions) && len(gopt.programTree.ChildOptions) == 0
+
+//@ func (*GetOpt).Self
+//@   props C18 C19
+//@   requires gopt != nil && gopt.programTree != nil && len(os.Args) >= 1
+//@   modifies gopt.programTree.Name, gopt.programTree.Description
+//@   ensures self {C18}: result == gopt && gopt.programTree.Description == description && (name != "" ==> gopt.programTree.Name == name)
+
+//@ func (*GetOpt).SetMapKeysToLower
+//@   props C19
+//@   requires gopt != nil && gopt.programTree != nil
+//@   modifies gopt.programTree.mapKeysToLower
+//@   ensures result == gopt && gopt.programTree.mapKeysToLower
+
+//@ func (*GetOpt).HelpSynopsisArg
+//@   props C18 C19
+//@   requires gopt != nil && gopt.programTree != nil
+//@   modifies gopt.programTree.SynopsisArgs
+//@   ensures synarg {C18}: result == gopt && len(gopt.programTree.SynopsisArgs) == old(len(gopt.programTree.SynopsisArgs)) + 1
+
+//@ func (*GetOpt).ArgCompletions
+//@   props C17 C19
+//@   requires gopt != nil && gopt.programTree != nil
+//@   modifies gopt.programTree.Suggestions
+//@   ensures argcomp {C17}: result == gopt && identical(gopt.programTree.Suggestions, list)
+
+//@ func (*GetOpt).ArgCompletionsFns
+//@   props C17 C19
+//@   requires gopt != nil && gopt.programTree != nil
+//@   modifies gopt.programTree.SuggestionFns
+//@   ensures argcompfns {C17}: result == gopt && isconcat(gopt.programTree.SuggestionFns, old(gopt.programTree.SuggestionFns), fn)
+
 // ---- typed definers (generated by /verif/tools/gen_definer_contracts.py; one uniform contract per kind) ----
 // A definer registers a fresh record under the name, wires the caller's variable as its receiver, writes the
 // default once, and then applies the modifiers. It may panic only on an invalid definition.
